@@ -217,7 +217,7 @@ func checkC09(c *C09Case) *Violation {
 	src := c09Src(c)
 	fc := RepoFonts()
 	resolved, ok := Resolve(c.File, c.Switches)
-	res := Compile(src, Opts{Optimize: true, FontPath: "@repo", Switches: c.Switches, Auto: c.Auto})
+	res := CompileMaybeLM(src, Opts{Optimize: true, FontPath: "@repo", Switches: c.Switches, Auto: c.Auto})
 	if res.Panic != nil || res.Budget {
 		return viol("crash", "%s\n--- source\n%s", res.Describe(), src)
 	}
